@@ -35,6 +35,14 @@ Proof.
 Qed.
 Print Assumptions durable.
 
+(* RESTART: opening a fresh key manager — with ANY primary key URI: the stored form does not depend on it, the local
+   secret lock ignores it — changes nothing; `durable` above holds across such reopenings (KReopen u is an operation
+   like any other in `rest`) *)
+Theorem reopen_any_uri_changes_nothing : forall v st u c,
+  st_store (fst (step v st (KReopen u, c))) = st_store st /\ snd (step v st (KReopen u, c)) = ODone.
+Proof. intros v st u c. destruct c as [[n|n]|]; split; reflexivity. Qed.
+Print Assumptions reopen_any_uri_changes_nothing.
+
 (* an entry changes only through a COMPLETED rotation of its id, which returns the id under which all its keys,
    in order, followed by the new primary key, are stored from then on *)
 Theorem entry_changes_only_by_its_rotation : forall st oc id ks,
@@ -172,7 +180,7 @@ Print Assumptions didkey_form_asis_refuted.
 (* non-vacuity: a history with creations, imports, rotations, a crash inside a rotation, reopening *)
 Example durable_nonvacuous :
   let ops := [(KCreate K_ED25519, None); (KImport K_ECDSAP256DER (Some 1) 1000, None);
-              (KRotate (KThumb 0), Some (IMut 1%nat)); (KReopen, None); (KRotate (KThumb 0), None);
+              (KRotate (KThumb 0), Some (IMut 1%nat)); (KReopen 7, None); (KRotate (KThumb 0), None);
               (KImport K_ECDSAP256DER (Some 1) 1001, None); (KCreate K_AES256GCM, Some (IMut 0%nat));
               (KGet (KThumb 4), None)] in
   let '(st, outs) := run Fixed init ops in
